@@ -43,6 +43,14 @@ func TestMain(m *testing.M) {
 	log.SetLevel(log.ErrorLevel)
 	log.StandardLogger().ExitFunc = func(code int) { simrt.Exit(code) }
 	stdlog.SetOutput(ioutil.Discard)
+	if *fTrace && os.Getenv("CRSIM_RELAYLOG") != "" {
+		// debugging aid: the relay's own trace log goes into the simulation's event log
+		log.SetLevel(log.TraceLevel)
+		log.SetOutput(simLogWriter{})
+		log.SetFormatter(&log.TextFormatter{DisableTimestamp: true, DisableColors: true})
+		stdlog.SetOutput(simLogWriter{})
+		stdlog.SetFlags(0)
+	}
 	// real-time watchdog: the scheduler must keep making progress
 	go func() {
 		last, lastAt := simrt.Heartbeat(), time.Now()
@@ -179,4 +187,11 @@ func TestWorker(t *testing.T) {
 			emit(RunCase(t, c2, false))
 		}
 	}
+}
+
+type simLogWriter struct{}
+
+func (simLogWriter) Write(p []byte) (int, error) {
+	simrt.Logf("relay: %s", strings.TrimSpace(string(p)))
+	return len(p), nil
 }
